@@ -519,13 +519,16 @@ type evidenceData struct {
 }
 
 var standingAssumptions = []string{
-	"machine integers are treated as mathematical integers (no overflow)",
-	"bodies of standard-library and third-party functions are replaced by the contracts in /verif/stdlib/*.spec (each listed in trusted_base)",
-	"interface method contracts are assumed at every dynamic call (listed in trusted_base); they are proved only of the repo implementations that have an implements duty",
-	"termination, panics other than the swept ones and memory exhaustion are not verified",
-	"a non-nil interface holding a nil pointer is identified with a nil interface",
-	"slices are immutable values; sub-slices do not alias their parent",
-	"cryptographic primitives are uninterpreted functions",
+	"integers are mathematical (no overflow); float64->int64 truncates toward zero; time.Time/Duration are integer nanoseconds and time.Now yields fresh non-decreasing instants",
+	"strings, slices and references are uninterpreted sorts with length/concatenation/sub-slice axioms; parsing, encoding and formatting functions are uninterpreted (contracts in /verif/stdlib/*.spec, each listed in trusted_base when used)",
+	"cryptographic primitives (digests, HMAC, bcrypt, signatures) are uninterpreted functions",
+	"no concurrency: each function is verified as sequential code; C19 is decided as lock discipline (guarded accesses, lock order, release), not by exploring interleavings",
+	"interface methods declared pureiface are abstract fields: pure, total and independent of context.Context arguments; function values of unknown origin are pure uninterpreted functions",
+	"interface method contracts are assumed at every dynamic call (listed in trusted_base); concrete types are checked against them only where a contract on the concrete method says so",
+	"all storage fields of a handler are views of one abstract store (ghost maps)",
+	"error sentinels, constant string slices and fields declared 'wiring' are read from the current source and assumed immutable; a scan of every store instruction in the repository checks this on each run",
+	"functions marked trusted, and clauses written 'assume', are not proved (listed in trusted_base when used)",
+	"a non-nil interface holding a nil pointer is identified with a nil interface; slices are immutable values and sub-slices do not alias their parent; termination, panics other than the swept index/map/nil checks and memory exhaustion are not verified",
 }
 
 func writeEvidence(path, prop, tier string, seed int, fnames []string, reports []oblReport, trusted []string, notes []string, wall float64, violations, discharged int) {
@@ -546,9 +549,13 @@ func writeEvidenceFull(path, prop, tier string, seed int, ev evidenceData, wall 
 	if ev.trusted == nil {
 		ev.trusted = []string{}
 	}
+	// obligations listed in known_findings.json are reported separately: they are not claimed as proved
+	claimed := total - ev.known
 	cov := map[string]interface{}{
-		"obligations":              total,
+		"obligations":              claimed,
 		"discharged":               discharged,
+		"obligations_generated":    total,
+		"known_finding_obligations_not_discharged": ev.known,
 		"checker_cmd":              fmt.Sprintf("bin/govc check --property %s --tier %s (VCs over go/ssa of /repo's current tree; z3-new 5.1.0 / z3 4.8.12 / cvc5 1.0.3)", prop, tier),
 		"trusted_base":             ev.trusted,
 		"samples":                  samples,
